@@ -190,6 +190,8 @@ def selftest(prop):
 def run_pack(prop, tier="quick", replay=None, seed=0):
     t0 = time.time()
     try:
+        from sa import fixtures
+        controls = fixtures.ensure()
         facts = factsmod.get_facts(all_targets=False)
         facts_all = None
     except factsmod.CheckerError as e:
@@ -262,6 +264,9 @@ def run_pack(prop, tier="quick", replay=None, seed=0):
             "bodies_in_facts": len(facts.bodies),
             "all_targets_facts": facts_all.hash if facts_all else None,
             "known_findings_suppressed": [v["key"] for v in known],
+            "analysis_core_controls": {"passed": sum(1 for v in controls.values() if v), "total": len(controls),
+                                       "what": "GOOD/BAD fixture functions compiled through the same driver (fixtures/src/lib.rs); "
+                                               "a failing control aborts with a checker error instead of a verdict"},
             "technique": "static analysis: rule instances over compiler MIR (control dependence, provenance, "
                          "who-may tables); nothing of barter-rs is executed",
         },
